@@ -6,9 +6,9 @@ props = [json.loads(l) for l in open(os.path.join(V, "properties.jsonl"))]
 TB = "Trusted: rustc's MIR construction and type checking (nightly 1.97, mir-opt-level=0), the checker's own abstract interpreter / rule code (validated against seeded mutants and benign edits), std collection semantics."
 CLAIMS = {
  "C01": dict(
-   technique="panic-site inventory over type-checked MIR with per-site discharge rules (offset provenance, length guards by abstract interpretation, constructor invariant, finite token language, constant regexes, extracted-model exploration, reviewed table); loop-driver and recursion-shape rules; id pass-through by path enumeration",
+   technique="panic-site inventory over type-checked MIR with per-site discharge rules (offset provenance, length guards by abstract interpretation, constructor invariant, finite token language, constant regexes, an all-inputs graph argument on the extracted scanner transducer); loop-driver and recursion-shape rules; id pass-through by path enumeration",
    text="Static: every Assert terminator, unwrap / expect, explicit panic, indexing and documented-to-panic callee in user-written bodies reachable from add_content / validate (the user grammar actions included) is enumerated from MIR (26 sites) and must be discharged: offsets given to the line/column lookup are untouched @L/@R captures or lalrpop's own token boundaries; slice indices are guarded by a length switch (interpreted for lengths 0..24); arity assumptions follow from a constructor invariant proved over all type productions; the Direction fall-through arm is unreachable because the DIRECTION token language equals the handled words; regexes are constant and parse; marker unwraps are unreachable in the explored abstract machine; four sites in the doc-comment scanner are reviewed entries conditioned on byte-typed counters. Loops are driven by std iterators, recursion is structural, and the result map has exactly the stored ids, each result tagged with its id.",
-   note=TB + " lalrpop 0.19.8 runtime / generated driver terminate and do not panic (TB-2). Panics inside dependencies for valid arguments, stack depth and allocation failure are not decided; 4 sites rest on a reviewed table.",
+   note=TB + " lalrpop 0.19.8 runtime / generated driver terminate and do not panic (TB-2). Panics inside dependencies for valid arguments, stack depth and allocation failure are not decided; The four javadoc sites rest on the extracted scanner table (rule K0: distances between end and begin markers, single-byte classes) and byte typing (J1); std callees documented to panic are a denylist.",
    design="DESIGN.md section 4, C01"),
  "C02": dict(
    technique="abstract interpretation of every user-written grammar action joined with lalrpop's lowered productions (field-by-field wiring vs a role-based spec); DFA equality of token / trivia languages with independently written references; layout non-interference rule",
@@ -31,7 +31,7 @@ CLAIMS = {
    note=TB + " R5 trusts rules/lrsim.py (a transcription of lalrpop_util 0.19.8 state_machine.rs, cross-checked by hand against the real parser on a few inputs) and TB-2 (generated tables = exported automaton); longer malformed members are not covered.",
    design="DESIGN.md section 4, C14"),
  "C18": dict(
-   technique="byte/char dimension typing on MIR; grammar-action wiring of `doc`; extraction of the backward scanner as a finite transducer and of the normaliser as a regex pipeline by abstract interpretation, each simulated on a bounded structured family against a reference written from the statement",
+   technique="positive byte/char dimension typing on MIR; all-inputs slice-safety argument on the extracted scanner transducer (shortest marker distances); grammar-action wiring of `doc`; extraction of the backward scanner as a finite transducer and of the normaliser as a regex pipeline by abstract interpretation, each simulated on a bounded structured family against a reference written from the statement",
    text="Static, bounded where stated: (J1) values used as str indices in find_content_string are byte-typed; (J2) for all documentable constructs doc = get_javadoc(input, capture that is the first symbol of the production); (J3) get_javadoc scans input[..pos] and maps through parse_javadoc; (K) the scanner loop is extracted as a 7-state transducer over the characters it distinguishes (one abstractly interpreted loop iteration per state x character class) and the extracted table is simulated on ~4 400 (quick) structured prefixes - preceding text, optional doc comment incl. non-ASCII / CRLF bodies, up to 2-3 items of whitespace, block and line comments - against a forward reference: closest doc comment if only whitespace and ordinary comments follow; (N) parse_javadoc is extracted as a pipeline model (regex constants, replacements, trim set, joiner) evaluated on 64+ doc bodies (paragraphs x lines x tags x LF/CRLF x star/bare layout x Unicode words) against a reference normaliser. Outside the two families nothing is decided.",
    note=TB + " lalrpop @L of the first symbol is the construct's first token (TB-2); rule N evaluates the extracted regex constants with Python's re (same semantics for the constructs used).",
    design="DESIGN.md section 4, C18"),
@@ -41,12 +41,12 @@ CLAIMS = {
    note="Trusted: serde derive / RON themselves; syn-based extraction; " + TB,
    design="DESIGN.md section 4, C19"),
  "C17": dict(
-   technique="per-variant table extraction of Symbol::get_qualified_name / get_name by abstract interpretation, format templates decoded from MIR, sibling-agreement rule against Aidl::get_key",
+   technique="per-variant table extraction of Symbol::get_qualified_name / get_name by abstract interpretation, format templates decoded from MIR, sibling-agreement rule against Aidl::get_key; tabulation of the per-file pipeline for the resolution stage; wiring of names",
    text="Static, exhaustive over symbol kinds: for each of the 11 Symbol variants the returned qualified name is extracted as (format template, provenance of each argument) and compared with the statement (items: the very template and roles of the registration key `package.Name`; members `Owner::member`; package / import dotted names; resolved type -> stored key); get_name likewise; that the stored key equals the registration key is carried by the resolver rules (kind and key come from the project map under the matched import path).",
    note=TB + " Reads rustc's compact format_args encoding (fails closed on unknown opcodes).",
    design="DESIGN.md section 4, C17"),
  "C20": dict(
-   technique="provenance analysis of the formatter by abstract interpretation for every vector length 0..24 (which elements flow into the sentence), plus path rules on the error-conversion functions",
+   technique="provenance analysis of the formatter by abstract interpretation for every vector length 0..24 (which elements flow into the sentence), plus path rules on the error-conversion functions; every dynamic part of a syntax message is the offending token or the formatter's result, no terminal name in literal text",
    text="Static: expected_token_str is interpreted abstractly for each length 0..24 with symbolic elements; the set of elements flowing into the returned sentence must be exactly v[0..n), each once, and nothing else dynamic; from_parse_error is tabulated over the ParseError variants to show the expectation vector reaches the formatter untouched; from_error_recovery keeps the message whole; both error paths use it.",
    note=TB + " Bounded in the vector length (0..24; the >=3 arm is one expression in len).",
    design="DESIGN.md section 4, C20"),
@@ -56,52 +56,52 @@ CLAIMS = {
    note=TB + " Equality with a fresh parser also needs seed independence (C11, incl. its known finding).",
    design="DESIGN.md section 4, C12"),
  "C13": dict(
-   technique="closure-capture and type-resolved access-pattern analysis of the shared key -> kind map; provenance of its entries by abstract interpretation",
+   technique="closure-capture and type-resolved access-pattern analysis of the shared key -> kind map; provenance of its entries by abstract interpretation; tabulation of the per-file pipeline (captures, arguments); hash-order taint of C11 re-evaluated for validation",
    text="Static non-interference argument: the per-file closure captures only the shared map by shared reference; every type-resolved use of a HashMap<String, ResolvedItemKind> reachable from it is get / contains_key; the map's entries are (get_key(), get_kind()) and get_key reads only package and item name; no global state.",
    note=TB,
    design="DESIGN.md section 4, C13"),
  "C11": dict(
-   technique="type-resolved hash-order taint classification of every consumer of a HashMap/HashSet iterator reachable from validation; dominator rule + key extraction for the final sort; global-state / purity scan",
+   technique="type-resolved hash-order taint classification of every consumer of a HashMap/HashSet iterator reachable from validation; dominator rule + key extraction for the final sort; global-state / purity scan; capture analysis of the per-file closure; recovery-diagnostic position rules for tree-less files",
    text="Static: every call whose receiver type is an adaptor chain over a std hash iterator, in all functions reachable from the entry points, is enumerated from type-checked MIR and must fall in a discharged class (order-insensitive, unique choice by minimum over distinct keys, find whose predicate implies equality with a loop-invariant, for-loop whose only effects are diagnostics re-ordered by the final sort, collect into a map with keys proven distinct); the final sort must be stable, last, and keyed on the whole start position (key closure tabulated); no statics, interior mutability, clock, environment or random source.",
    note=TB + " Order of syntax diagnostics for tree-less files is lalrpop's (not decided).",
    design="DESIGN.md section 4, C11"),
  "C06": dict(
-   technique="decision-table extraction (abstract interpretation of MIR with map lookups as oracle predicates) for the fold closures and classification loops; walker visit sequences; per-category table of the 'used' set",
+   technique="decision-table extraction (abstract interpretation of MIR with map lookups as oracle predicates) for the fold closures and classification loops; walker visit sequences; per-category table of the 'used' set; tabulation of the per-file validation pipeline (each checker once, expected arguments), loop-carried-state rule on the MIR CFG, early-exit detection, and grammar-action wiring of the fields the rule reads",
    text="Static, partial by design: the 'used' set is fed from a depth-complete traversal (inductive walker rule) and the resolver callback inserts the resolved key / the built-in's qualified name for every category; the duplicate-detection folds and the per-entry classification loops of check_imports and check_declared_parcelables are tabulated over their oracle predicates (occupied / vacant, defined, built-in, used, conflicting import) and compared with the statement: which diagnostic (kind, range on the statement's name or whole extent, back-reference), exactly once, and nothing else. The string contents of the sets are not decided.",
    note=TB + " Map lookups are oracle bits (std semantics).",
    design="DESIGN.md section 4, C06"),
  "C05": dict(
-   technique="visit-sequence extraction of the mutable type walker (inductive depth), path enumeration of resolve_type by abstract interpretation with the lookups as oracles, table extraction of the built-in tables",
+   technique="visit-sequence extraction of the mutable type walker (inductive depth), path enumeration of resolve_type by abstract interpretation with the lookups as oracles, table extraction of the built-in tables; tabulation of the per-file validation pipeline (each checker once, expected arguments), loop-carried-state rule on the MIR CFG, early-exit detection, and grammar-action wiring of the fields the rule reads",
    text="Static, partial by design: (a) every type node at any depth reaches the resolver (walker sequence per configuration + induction on the recursive helper); (b) on every path through resolve_type an unresolved reference ends with exactly one classification or exactly one Error on its name, classified nodes are untouched; (c) built-in name tables, get_all completeness, lookup predicates, Item::get_kind and the shape of the project key map are tabulated against spec/builtins.json; (d) per path, the order import -> forward declaration -> built-in, the kind coming from the project map under the very key that matched, and built-in precedence over an import of the built-in. String-matching semantics of the searches (exact / suffix match, near misses) are NOT decided.",
    note=TB + " The searches over imports and forward declarations are treated as oracles (their predicates quantify over arbitrary strings).",
    design="DESIGN.md section 4, C05"),
  "C09": dict(
-   technique="step-function extraction by abstract interpretation of the per-method closure, then exhaustive exploration of the finite abstract machine in product with a monitor",
+   technique="step-function extraction by abstract interpretation of the per-method closure, then exhaustive exploration of the finite abstract machine in product with a monitor; tabulation of the per-file validation pipeline (each checker once, expected arguments), loop-carried-state rule on the MIR CFG, early-exit detection, and grammar-action wiring of the fields the rule reads",
    text="Static model checking of an extracted model: the fold step of check_methods is extracted from MIR as a function of six boolean abstractions (name seen, code present, code seen, first-with / first-without markers set, id map empty); every transition from every reachable abstract state is compared with a monitor transcribed from the statement (which Error with which range / back-reference, which bookkeeping updates, and nothing else). The invariant relating the id map to the marker is found by the exploration. walk_methods is shown to yield methods only.",
    note=TB + " The abstraction of HashMap lookups as oracle bits relies on std map semantics. u32 parsing of codes is std.",
    design="DESIGN.md section 4, C09"),
  "C15": dict(
-   technique="visit-sequence extraction by abstract interpretation of the walkers' MIR (one generic element per container, recursion as induction hypothesis) compared with a traversal spec; path-existence rule for ControlFlow propagation",
+   technique="visit-sequence extraction by abstract interpretation of the walkers' MIR (one generic element per container, recursion as induction hypothesis) compared with a traversal spec; path-existence rule for ControlFlow propagation; predicate-consultation order of find / filter compared with the walker's sequence; loop-carried-state rule",
    text="Static: for each of the 3 filter levels x 5 item/member configurations the sequence of callback invocations of walk_symbols_with_control_flow is extracted from MIR and compared with the pre-order the statement prescribes (array element first); nested types are covered by proving the inductive step of the recursive type visit; for every callback invocation a path must exist on which its Break ends the walk (dropped results are reported); walk_symbols / filter_symbols / find_symbol are interpreted end to end with an opaque predicate (all predicate valuations enumerated); walk_types / walk_methods / walk_args sequences likewise.",
    note=TB + " Assumes std iterator semantics (forward, once per element, try_for_each short-circuits).",
    design="DESIGN.md section 4, C15"),
  "C16": dict(
-   technique="path enumeration of range_contains over all 81 order types of its comparisons; per-variant table of Symbol::get_range; lookup-shape rule; C15 traversal rules re-evaluated",
+   technique="path enumeration of range_contains over all 81 order types of its comparisons; per-variant table of Symbol::get_range; lookup-shape rule; C15 traversal rules re-evaluated; C15's find / filter rules, C04's position and name-range wiring rules re-evaluated",
    text="Static, exhaustive: range_contains touches its six integers only through comparisons (checked on the extracted branch literals), so its boolean function is compared with inclusive lexicographic containment over all 81 order types; find_symbol_at_line_col is shown to be find_symbol with that predicate on Symbol::get_range, which is tabulated over all 11 Symbol variants to be the name range; 'first such symbol in traversal order, package included, any depth' is C15's walker and propagation rules, re-run under this property.",
    note=TB + " Not decided: line/column arithmetic inside the line-col crate; exactness of the name range is C04.",
    design="DESIGN.md section 4, C16"),
  "C08": dict(
-   technique="abstract interpretation of MIR: element decision tables (4 x 17 cells) and container dispatch vs spec tables; visit-sequence extraction of the type walker with an inductive depth argument",
+   technique="abstract interpretation of MIR: element decision tables (4 x 17 cells) and container dispatch vs spec tables; visit-sequence extraction of the type walker with an inductive depth argument; tabulation of the per-file validation pipeline (each checker once, expected arguments), loop-carried-state rule on the MIR CFG, early-exit detection, and grammar-action wiring of the fields the rule reads",
    text="Static, exhaustive over categories: the four element checkers are tabulated from MIR for all 17 type categories (68 cells: exactly one Error on the element for a rejected one, nothing for an accepted one) and check_container's dispatch over kind x arity; the claim 'every container anywhere, at any depth' is decided by extracting the visit sequence of traverse::walk_types for every item/member configuration (every type-bearing field of the AST ADTs must appear) and proving the inductive step of its recursive helper (visit t, recurse on each generic parameter).",
    note=TB + " Assumes std iterators visit every element once in order; category of a source type is C05's business.",
    design="DESIGN.md section 4, C08"),
  "C10": dict(
-   technique="abstract interpretation of MIR (decision-table extraction through the iterator chain) vs the table the statement gives; dominator-based order and guard rule",
+   technique="abstract interpretation of MIR (decision-table extraction through the iterator chain) vs the table the statement gives; dominator-based order and guard rule; tabulation of the per-file validation pipeline (each checker once, expected arguments), loop-carried-state rule on the MIR CFG, early-exit detection, and grammar-action wiring of the fields the rule reads",
    text="Static, exhaustive: set_up_oneway_interface is tabulated over interface.oneway x member variant x method.oneway (effects: Warning on the redundant keyword / the single assignment method.oneway = true / nothing), check_method over method.oneway x 17 return-type categories (one Error on the return type iff oneway and not void), and the per-file pipeline is checked to run the propagation strictly before the method checks, guarded only by the item being an interface.",
    note=TB + " Keyword presence and oneway_range wiring are decided by the grammar rules (C02/C04).",
    design="DESIGN.md section 4, C10"),
  "C07": dict(
-   technique="abstract interpretation of MIR over the finite type-category domain (decision-table extraction) compared with a spec table; dominator-based call-order rule",
+   technique="abstract interpretation of MIR over the finite type-category domain (decision-table extraction) compared with a spec table; dominator-based call-order rule; tabulation of the per-file validation pipeline (each checker once, expected arguments), loop-carried-state rule on the MIR CFG, early-exit detection, and grammar-action wiring of the fields the rule reads",
    text="Static, exhaustive over the property's own quantifier: the per-argument decision table of check_method_args (with get_requirement_for_arg_direction inlined) is extracted from the type-checked MIR for all 17 type categories x 4 directions x method-oneway (136 cells) and compared cell by cell (number of Errors, their kind and the provenance of their range) with a table transcribed from the statement; pipeline order (resolve_types < set_up_oneway_interface < check_methods) is decided on the CFG. No code of the repository is executed.",
    note=TB + " Not decided here: that source types land in the right category (C05) and that the Direction token reaches the AST (wiring rule, C02/C04).",
    design="DESIGN.md section 4, C07"),
